@@ -1,0 +1,52 @@
+//go:build verif
+
+// Contracts for govc (contract-based deductive verification, see /verif/DESIGN.md).
+// Comment-only file: it contains no code and is compiled only under the verif tag.
+
+package pebble
+
+// ---------------------------------------------------------------- every log store write is a synced write (C04)
+// pebble makes a write durable before returning only when WriteOptions.Sync is set. The
+// requirement is put on pebble's own write entry points, so that every write issued by this
+// package has to prove it.
+//@ extern github.com/cockroachdb/pebble (d *DB) Apply
+//@ requires opts != nil && opts.Sync
+//@ extern github.com/cockroachdb/pebble (d *DB) Set
+//@ requires opts != nil && opts.Sync
+//@ extern github.com/cockroachdb/pebble (d *DB) Delete
+//@ requires opts != nil && opts.Sync
+//@ extern github.com/cockroachdb/pebble (d *DB) NewBatch
+//@ ensures result != nil
+//@ extern github.com/cockroachdb/pebble (b *Batch) DeleteRange
+//@ extern github.com/cockroachdb/pebble (b *Batch) Close
+
+//@ pred (r *KV) synced() := r.wo != nil && r.wo.Sync && r.db != nil
+
+//@ func (r *KV) SaveValue [C04]
+//@ requires r.synced()
+//@ func (r *KV) DeleteValue [C04]
+//@ requires r.synced()
+//@ func (r *KV) BulkRemoveEntries [C04]
+//@ noframe
+//@ requires r.synced()
+//@ func (r *KV) CommitWriteBatch [C04]
+//@ requires r.synced()
+
+// the store handed to the log database is opened with synced writes
+//@ func openPebbleDB [C04]
+//@ noframe
+//@ nobounds
+//@ ensures result1 == nil ==> result0 != nil && typeof(result0) == typeid(*KV) && as(*KV, result0).synced()
+
+// library calls made while opening the store: none of them can reach the write options object
+//@ extern sync (o *Once) Do
+//@ extern github.com/cockroachdb/pebble NewCache
+//@ ensures result != nil
+//@ extern github.com/cockroachdb/pebble/internal/cache (c *Cache) Unref
+//@ extern github.com/cockroachdb/pebble Open
+//@ ensures result1 == nil ==> result0 != nil
+//@ extern github.com/lni/goutils/syncutil NewStopper
+//@ ensures result != nil
+//@ func (r *KV) setEventListener [C04]
+//@ trusted installs the event listener (closures, channel close); touches only r.event
+//@ modifies r.event
